@@ -12,15 +12,26 @@ theorem spec (p : Bytes) :
       if p.length < 3 then .err (.invalid, .unknown)
       else if byteAt p 1 = 0x0F#8 then .ok ((byteAt p 2).toNat + 4)
       else .err (.invalid, .unknown) := by
-  sorry
+  unfold getLength
+  simp only [smbus_cmd_get, smbus_count_get]
+  have h : ∀ b : B, (b.toNat = 0x0F) = (b = 0x0F#8) := by
+    apply forall_byte; decide +kernel
+  simp only [h]
 
 /-- depends on nothing but the first three bytes -/
 theorem prefix_only (p q : Bytes) (hp : 3 ≤ p.length) (hq : 3 ≤ q.length) (h : p.take 3 = q.take 3) :
     getLength p = getLength q := by
-  sorry
+  have hp' : ¬ p.length < 3 := by omega
+  have hq' : ¬ q.length < 3 := by omega
+  have h1 : byteAt p 1 = byteAt q 1 := by
+    rw [← byteAt_take p 3 1 (by omega), h, byteAt_take q 3 1 (by omega)]
+  have h2 : byteAt p 2 = byteAt q 2 := by
+    rw [← byteAt_take p 3 2 (by omega), h, byteAt_take q 3 2 (by omega)]
+  rw [spec, spec, if_neg hp', if_neg hq', h1, h2]
 
 theorem never_panics (p : Bytes) : (getLength p).isPanic = false := by
-  sorry
+  rw [spec]; repeat' split
+  all_goals rfl
 
 example : getLength [0x46#8, 0x0F#8, 0x0A#8] = .ok 14 := by decide +kernel
 example : getLength [0x46#8, 0x0E#8, 0x0A#8, 0x00#8] = .err (.invalid, .unknown) := by decide +kernel
